@@ -197,6 +197,53 @@ _SHIMS = {
 }
 
 
+# ---- dask environment stubs: both only change what dask does for dtype=object (where it fails outright)
+_DASK_ORIG = {}
+
+
+def _install_dask():
+    import dask.array.core as dac
+
+    _DASK_ORIG["apply_infer_dtype"] = dac.apply_infer_dtype
+    _DASK_ORIG["auto_chunks"] = dac.auto_chunks
+
+    def apply_infer_dtype(func, args, kwargs, funcname, suggest_dtype="dtype", nout=None):
+        # dask infers result dtypes by calling func on np.empty(..., dtype=object) (None / None -> TypeError);
+        # arithmetic on object arrays yields object arrays
+        if any(getattr(a, "dtype", None) == object for a in args):
+            return np.dtype(object) if nout is None else tuple(np.dtype(object) for _ in range(nout))
+        return _DASK_ORIG["apply_infer_dtype"](func, args, kwargs, funcname, suggest_dtype, nout)
+
+    def auto_chunks(chunks, shape, limit, dtype, previous_chunks=None):
+        # dask refuses to auto-chunk dtype=object (unknown item size): chunk as for float64, which is what
+        # the same call does on the float64 array of the real run
+        if np.dtype(dtype).hasobject:
+            dtype = np.dtype("f8")
+        return _DASK_ORIG["auto_chunks"](chunks, shape, limit, dtype, previous_chunks)
+
+    dac.apply_infer_dtype = apply_infer_dtype
+    dac.auto_chunks = auto_chunks
+    for modname in ("dask.array.blockwise", "dask.array.routines", "dask.array.gufunc", "dask.array.ufunc", "dask.array.reductions"):
+        try:
+            m = __import__(modname, fromlist=["x"])
+        except Exception:
+            continue
+        if getattr(m, "apply_infer_dtype", None) is _DASK_ORIG["apply_infer_dtype"]:
+            _DASK_ORIG.setdefault("mods", []).append(m)
+            m.apply_infer_dtype = apply_infer_dtype
+
+
+def _uninstall_dask():
+    import dask.array.core as dac
+    if not _DASK_ORIG:
+        return
+    dac.apply_infer_dtype = _DASK_ORIG["apply_infer_dtype"]
+    dac.auto_chunks = _DASK_ORIG["auto_chunks"]
+    for m in _DASK_ORIG.get("mods", []):
+        m.apply_infer_dtype = _DASK_ORIG["apply_infer_dtype"]
+    _DASK_ORIG.clear()
+
+
 def install():
     if _ORIG:
         return
@@ -204,12 +251,14 @@ def install():
         _ORIG[n] = getattr(np, n)
     for n, f in _SHIMS.items():
         setattr(np, n, f)
+    _install_dask()
 
 
 def uninstall():
     for n, f in _ORIG.items():
         setattr(np, n, f)
     _ORIG.clear()
+    _uninstall_dask()
 
 
 @contextlib.contextmanager
